@@ -16,17 +16,10 @@
 //! end
 //! ```
 //! stdout: one JSON line per distinct outcome and one summary line per scenario.
+#![allow(dead_code)]
 
-#[path = "/verif/harness/hcimpl/src/attrs.rs"]
-mod attrs;
-#[path = "/verif/harness/hcimpl/src/fmt.rs"]
-mod fmt;
-#[path = "/verif/harness/hcimpl/src/k2.rs"]
-mod k2;
-#[path = "/verif/harness/hcimpl/src/s2.rs"]
-mod s2;
-#[path = "/verif/harness/hcimpl/src/s3.rs"]
-mod s3;
+// every module of hcimpl (generated list, see build.rs); `Sess` mirrors hcimpl's crate root
+include!(concat!(env!("OUT_DIR"), "/hcimpl_mods.rs"));
 mod sched;
 
 use std::collections::BTreeMap;
@@ -37,7 +30,8 @@ use std::sync::Arc;
 use honeycomb_core::stm::verif;
 use sched::{Dfs, Rng, Run, Shared, Strategy, ThreadHook};
 
-enum Sess {
+pub enum Sess {
+    None,
     D2(s2::S2),
     D3(s3::S3),
 }
@@ -45,12 +39,14 @@ enum Sess {
 impl Sess {
     fn step(&mut self, toks: &[&str]) -> String {
         match self {
+            Sess::None => "bad-op".into(),
             Sess::D2(s) => s.step(toks),
             Sess::D3(s) => s.step(toks),
         }
     }
     fn run_tx(&self, ops: &[Vec<String>]) -> String {
         match self {
+            Sess::None => "bad-op".into(),
             Sess::D2(s) => s.run_tx(ops),
             Sess::D3(s) => s.run_tx(ops),
         }
@@ -64,7 +60,7 @@ struct Scenario {
     name: String,
     params: BTreeMap<String, String>,
     init: Vec<String>,
-    threads: Vec<Vec<Tx>>,
+    threads: Vec<Arc<Vec<Tx>>>,
 }
 
 impl Scenario {
@@ -96,20 +92,20 @@ fn parse(input: impl BufRead) -> Vec<Scenario> {
                 in_tx = false;
             }
             ("end", Some(_)) if !in_tx => out.push(cur.take().unwrap()),
-            ("thread", Some(s)) if !in_tx => s.threads.push(vec![]),
+            ("thread", Some(s)) if !in_tx => s.threads.push(Arc::new(vec![])),
             ("tx", Some(s)) if !in_tx && !s.threads.is_empty() => {
-                s.threads.last_mut().unwrap().push(vec![]);
+                Arc::get_mut(s.threads.last_mut().unwrap()).unwrap().push(vec![]);
                 in_tx = true;
             }
             ("endtx", Some(_)) if in_tx => in_tx = false,
             (_, Some(s)) => {
                 if in_tx {
-                    s.threads.last_mut().unwrap().last_mut().unwrap().push(toks.iter().map(|x| x.to_string()).collect());
+                    Arc::get_mut(s.threads.last_mut().unwrap()).unwrap().last_mut().unwrap().push(toks.iter().map(|x| x.to_string()).collect());
                 } else if s.threads.is_empty() {
                     s.init.push(t.to_string());
                 } else {
                     // a bare op in a thread = a transaction of its own
-                    s.threads.last_mut().unwrap().push(vec![toks.iter().map(|x| x.to_string()).collect()]);
+                    Arc::get_mut(s.threads.last_mut().unwrap()).unwrap().push(vec![toks.iter().map(|x| x.to_string()).collect()]);
                 }
             }
             _ => {}
@@ -164,74 +160,199 @@ struct RunOut {
     run: Run,
 }
 
-fn run_once(sc: &Scenario, strategy: Strategy, max_steps: u64, trace: bool) -> Result<RunOut, String> {
-    let mut sess = build(&sc.init)?;
-    let nt = sc.threads.len();
-    let sh = Shared::new(Run::new(nt, max_steps, strategy, trace));
-    let mut results: Vec<Vec<String>> = vec![vec![]; nt];
-    let mut worker_panic = false;
-    let stuck = std::thread::scope(|scope| {
-        let mut handles = vec![];
-        for (tid, txs) in sc.threads.iter().enumerate() {
-            let sh = sh.clone();
-            let sess = &sess;
-            handles.push(scope.spawn(move || {
-                verif::install(Arc::new(ThreadHook { sh: sh.clone(), tid }));
-                let r = catch_unwind(AssertUnwindSafe(|| {
-                    let mut res = vec![];
-                    if sh.start(tid) {
-                        for (k, tx) in txs.iter().enumerate() {
-                            sh.set_tx(tid, k);
-                            let r = sess.run_tx(tx);
-                            if sh.aborted() {
-                                break;
-                            }
-                            res.push(r);
+/// what a worker executes: `body(thread, k)` = result line of the k-th transaction of the thread
+type Body = Arc<dyn Fn(usize, usize) -> String + Send + Sync>;
+
+/// persistent worker threads (spawning per run costs more than the run itself)
+struct Job {
+    sh: Arc<Shared>,
+    tid: usize,
+    ntx: usize,
+    body: Body,
+}
+
+type JobResult = Result<Vec<String>, bool>;
+
+/// one mailbox per worker; idle workers spin, then yield, then poll (no futex on the hot path)
+#[derive(Default)]
+struct Slot {
+    job: std::sync::Mutex<Option<Job>>,
+    res: std::sync::Mutex<Option<JobResult>>,
+    has: std::sync::atomic::AtomicBool,
+}
+
+struct Pool {
+    slots: Vec<Arc<Slot>>,
+}
+
+impl Pool {
+    fn new() -> Self {
+        Pool { slots: vec![] }
+    }
+
+    fn ensure(&mut self, n: usize) {
+        use std::sync::atomic::Ordering;
+        while self.slots.len() < n {
+            let slot = Arc::new(Slot::default());
+            self.slots.push(slot.clone());
+            std::thread::spawn(move || {
+                loop {
+                    let mut k = 0u32;
+                    while !slot.has.swap(false, Ordering::SeqCst) {
+                        k = k.saturating_add(1);
+                        if k < 2000 {
+                            std::hint::spin_loop();
+                        } else if k < 20000 {
+                            std::thread::yield_now();
+                        } else {
+                            std::thread::sleep(std::time::Duration::from_micros(200));
                         }
                     }
-                    res
-                }));
-                verif::uninstall();
-                sh.finish(tid);
-                sh.exit();
-                r
-            }));
+                    let Job { sh, tid, ntx, body } = slot.job.lock().unwrap().take().unwrap();
+                    verif::install(Arc::new(ThreadHook { sh: sh.clone(), tid }));
+                    let r = catch_unwind(AssertUnwindSafe(|| {
+                        let mut res = vec![];
+                        if sh.start(tid) {
+                            for k in 0..ntx {
+                                sh.set_tx(tid, k);
+                                let r = body(tid, k);
+                                if sh.aborted() {
+                                    break;
+                                }
+                                res.push(r);
+                            }
+                        }
+                        res
+                    }));
+                    verif::uninstall();
+                    sh.finish(tid);
+                    drop(body);
+                    *slot.res.lock().unwrap() = Some(r.map_err(|p| p.is::<sched::AbortRun>()));
+                    sh.exit();
+                    drop(sh);
+                }
+            });
         }
+    }
+
+    /// one scheduled execution of `ntx.len()` threads; `Err(())` = a worker never reached a yield point again
+    fn run(&mut self, ntx: &[usize], body: Body, strategy: Strategy, max_steps: u64, trace: bool) -> Result<(Run, Vec<Vec<String>>, String), ()> {
+        let nt = ntx.len();
+        self.ensure(nt);
+        let sh = Shared::new(Run::new(nt, max_steps, strategy, trace));
+        for tid in 0..nt {
+            let job = Job { sh: sh.clone(), tid, ntx: ntx[tid], body: body.clone() };
+            *self.slots[tid].job.lock().unwrap() = Some(job);
+            self.slots[tid].has.store(true, std::sync::atomic::Ordering::SeqCst);
+        }
+        drop(body);
         sh.release();
-        if sh.wait_all(nt, 20).is_err() {
-            return true;
-        }
-        for (tid, h) in handles.into_iter().enumerate() {
-            match h.join() {
-                Ok(Ok(r)) => results[tid] = r,
-                Ok(Err(p)) => {
-                    if !p.is::<sched::AbortRun>() {
+        sh.wait_all(nt, 20)?;
+        let mut results: Vec<Vec<String>> = vec![vec![]; nt];
+        let mut worker_panic = false;
+        for (tid, res) in results.iter_mut().enumerate() {
+            match self.slots[tid].res.lock().unwrap().take() {
+                Some(Ok(r)) => *res = r,
+                Some(Err(is_abort)) => {
+                    if !is_abort {
                         worker_panic = true;
                     }
                 }
-                Err(_) => worker_panic = true,
+                None => worker_panic = true,
             }
         }
-        false
-    });
-    if stuck {
+        let run = sh.into_run();
+        let status = if let Some(a) = run.abort {
+            a.to_string()
+        } else if worker_panic {
+            "panic".to_string()
+        } else {
+            "ok".to_string()
+        };
+        Ok((run, results, status))
+    }
+}
+
+/// `snap`/`wf` of a 3-map cost ~0.6 ms (they read the removal flags through `CMap3::serialize`, which spawns four
+/// threads); the final state is therefore first fingerprinted through the public accessors and the two lines are
+/// computed once per distinct fingerprint.  Only used when no op of the scenario can change a removal flag.
+fn fingerprint(sess: &Sess) -> Option<String> {
+    use attrs::{CTerm, ETerm, FTerm, VDef, VTerm};
+    use std::fmt::Write;
+    let Sess::D3(s) = sess else { return None };
+    let m = &s.map;
+    let n = m.n_darts() as u32;
+    let mut o = String::new();
+    for x in 0..n {
+        for i in 0..4u8 {
+            write!(o, "{} ", m.beta_rt(i, x)).unwrap();
+        }
+        match m.force_read_vertex(x) {
+            Some(v) => write!(o, "{:x},{:x},{:x};", v.x().to_bits(), v.y().to_bits(), v.z().to_bits()).unwrap(),
+            None => o.push('-'),
+        }
+        for st in 1..=5u32 {
+            if (s.mask >> (st - 1)) & 1 == 1 {
+                let v = match st {
+                    1 => m.force_read_attribute::<VTerm>(x).map(|v| v.0),
+                    2 => m.force_read_attribute::<ETerm>(x).map(|v| v.0),
+                    3 => m.force_read_attribute::<FTerm>(x).map(|v| v.0),
+                    4 => m.force_read_attribute::<CTerm>(x).map(|v| v.0),
+                    _ => m.force_read_attribute::<VDef>(x).map(|v| v.0),
+                };
+                match v {
+                    Some(id) => o.push_str(&attrs::term_str(id)),
+                    None => o.push('-'),
+                }
+                o.push(';');
+            }
+        }
+    }
+    Some(o)
+}
+
+const FLAG_PRESERVING: &[&str] =
+    &["link", "unlink", "sew", "unsew", "vid", "eid", "fid", "volid", "orbit", "beta", "isun", "rv", "wv", "xv", "ra", "wa", "xa"];
+
+type SnapCache = std::collections::HashMap<String, (String, String)>;
+
+fn run_once(pool: &mut Pool, sc: &Scenario, strategy: Strategy, max_steps: u64, trace: bool, cache: &mut Option<SnapCache>) -> Result<RunOut, String> {
+    let mut sess = Arc::new(build(&sc.init)?);
+    let ntx: Vec<usize> = sc.threads.iter().map(|t| t.len()).collect();
+    let body: Body = {
+        let sess = sess.clone();
+        let threads = sc.threads.clone();
+        Arc::new(move |tid, k| sess.run_tx(&threads[tid][k]))
+    };
+    let Ok((run, results, status)) = pool.run(&ntx, body, strategy, max_steps, trace) else {
         // a worker spins between two yield points: it cannot be stopped, report and leave
         println!(
-            "{{\"scenario\":{},\"type\":\"outcome\",\"status\":\"hang-no-yield\",\"commit_order\":[],\"results\":[],\"snap\":\"\",\"wf\":\"\",\"count\":1,\"mode\":\"?\",\"witness\":[]}}",
+            "{{\"scenario\":{},\"type\":\"outcome\",\"status\":\"hang-no-yield\",\"commit_order\":[],\"results\":[],\"snap\":\"\",\"wf\":\"\",\"count\":1,\"mode\":\"?\",\"preemptions\":0,\"witness\":[]}}",
             js(&sc.name)
         );
         std::io::stdout().flush().unwrap();
         std::process::exit(3);
-    }
-    let run = sh.into_run();
-    let status = if let Some(a) = run.abort {
-        a.to_string()
-    } else if worker_panic {
-        "panic".to_string()
-    } else {
-        "ok".to_string()
     };
-    let (snap, wf) = if status == "ok" { (sess.step(&["snap"]), sess.step(&["wf"])) } else { (String::new(), String::new()) };
+    let (snap, wf) = if status == "ok" {
+        while Arc::strong_count(&sess) > 1 {
+            std::hint::spin_loop();
+        }
+        let s = Arc::get_mut(&mut sess).ok_or_else(|| "session still shared".to_string())?;
+        match cache.as_mut().and_then(|c| fingerprint(s).map(|f| (c, f))) {
+            Some((c, f)) => {
+                if let Some(v) = c.get(&f) {
+                    v.clone()
+                } else {
+                    let v = (s.step(&["snap"]), s.step(&["wf"]));
+                    c.insert(f, v.clone());
+                    v
+                }
+            }
+            None => (s.step(&["snap"]), s.step(&["wf"])),
+        }
+    } else {
+        (String::new(), String::new())
+    };
     Ok(RunOut { status, commit_order: run.commit_order.clone(), results, snap, wf, run })
 }
 
@@ -294,8 +415,11 @@ fn record(out: RunOut, mode: &str, outcomes: &mut BTreeMap<Key, Outcome>, tot: &
     e.count += 1;
 }
 
-fn explore(sc: &Scenario) {
+fn explore(pool: &mut Pool, sc: &Scenario) {
     let max_steps = sc.num("max_steps", 20000);
+    let flags_fixed = sc.threads.iter().all(|t| t.iter().all(|tx| tx.iter().all(|op| FLAG_PRESERVING.contains(&op[0].as_str()))));
+    let mut cache: Option<SnapCache> = if flags_fixed { Some(SnapCache::new()) } else { None };
+    let cache = &mut cache;
     let mut outcomes: BTreeMap<Key, Outcome> = BTreeMap::new();
     let mut tot = Totals::default();
     let mut exhaustive = false;
@@ -307,7 +431,7 @@ fn explore(sc: &Scenario) {
 
     if let Some(r) = sc.params.get("replay") {
         let sched: Vec<u8> = r.split(',').filter_map(|x| x.trim().parse().ok()).collect();
-        match run_once(sc, Strategy::Replay { sched, pos: 0 }, max_steps, sc.num("trace", 0) != 0) {
+        match run_once(pool, sc, Strategy::Replay { sched, pos: 0 }, max_steps, sc.num("trace", 0) != 0, cache) {
             Ok(out) => {
                 if let Some(tr) = &out.run.trace {
                     for (k, e) in tr.iter().enumerate() {
@@ -339,7 +463,7 @@ fn explore(sc: &Scenario) {
                 let lim = if bound == p0 { cap } else { full_cap };
                 let mut complete = false;
                 loop {
-                    let out = match run_once(sc, Strategy::Dfs(dfs), max_steps, false) {
+                    let out = match run_once(pool, sc, Strategy::Dfs(dfs), max_steps, false, cache) {
                         Ok(o) => o,
                         Err(e) => return fail(e),
                     };
@@ -382,7 +506,7 @@ fn explore(sc: &Scenario) {
             for i in 0..sc.num("random", 0) {
                 let mut rng = Rng(seed.wrapping_mul(0x1000_0001).wrapping_add(i));
                 let num = 1 + rng.below(6); // switch probability 1/16 .. 6/16 per step
-                match run_once(sc, Strategy::Random { rng, num, den: 16 }, max_steps, false) {
+                match run_once(pool, sc, Strategy::Random { rng, num, den: 16 }, max_steps, false, cache) {
                     Ok(o) => record(o, "random", &mut outcomes, &mut tot),
                     Err(e) => return fail(e),
                 }
@@ -400,7 +524,7 @@ fn explore(sc: &Scenario) {
                     prio[*t] = d as i64 + rank as i64;
                 }
                 let change: Vec<u64> = (0..d.saturating_sub(1)).map(|_| 1 + rng.below(k)).collect();
-                match run_once(sc, Strategy::Pct { prio, change, low: d as i64 - 1 }, max_steps, false) {
+                match run_once(pool, sc, Strategy::Pct { prio, change, low: d as i64 - 1 }, max_steps, false, cache) {
                     Ok(o) => record(o, "pct", &mut outcomes, &mut tot),
                     Err(e) => return fail(e),
                 }
@@ -434,7 +558,7 @@ fn explore(sc: &Scenario) {
         "{{\"scenario\":{},\"type\":\"summary\",\"threads\":{},\"transactions\":{},\"schedules\":{},\"by_mode\":{{{}}},\"bound_completed\":{},\"exhaustive\":{},\"truncated\":{},\"max_preemptions\":{},\"retries\":{},\"runs_with_retry\":{},\"stm_blocks\":{},\"atomic_reads\":{},\"first_reads\":{},\"max_steps\":{},\"distinct_outcomes\":{},\"distinct_commit_orders\":{}}}",
         js(&sc.name),
         sc.threads.len(),
-        sc.threads.iter().map(Vec::len).sum::<usize>(),
+        sc.threads.iter().map(|t| t.len()).sum::<usize>(),
         tot.schedules,
         modes.join(","),
         bound_done,
@@ -457,11 +581,105 @@ fn main() {
     std::panic::set_hook(Box::new(|_| {}));
     let stdin = std::io::stdin();
     let scenarios = parse(stdin.lock());
+    let mut pool = Pool::new();
     for sc in &scenarios {
         if sc.threads.is_empty() || sc.threads.len() > 8 {
             println!("{{\"scenario\":{},\"type\":\"error\",\"what\":\"need 1..8 threads\"}}", js(&sc.name));
             continue;
         }
-        explore(sc);
+        explore(&mut pool, sc);
+    }
+}
+
+#[cfg(test)]
+mod tests {
+    //! the scheduler on raw fast-stm programs: blocking `retry`, deadlock and hang reporting
+    use super::*;
+    use honeycomb_core::stm::{TVar, atomically, retry};
+
+    fn explore_raw(ntx: &[usize], mk: impl Fn() -> Body, bound: u32, max_steps: u64) -> BTreeMap<(String, Vec<Vec<String>>), u64> {
+        let mut pool = Pool::new();
+        let mut dfs = Dfs::new(bound);
+        let mut out = BTreeMap::new();
+        loop {
+            let (mut run, results, status) = pool.run(ntx, mk(), Strategy::Dfs(dfs), max_steps, false).unwrap();
+            dfs = match std::mem::replace(&mut run.strategy, Strategy::Replay { sched: vec![], pos: 0 }) {
+                Strategy::Dfs(d) => d,
+                _ => unreachable!(),
+            };
+            *out.entry((status, results)).or_insert(0) += 1;
+            if !dfs.backtrack() {
+                return out;
+            }
+        }
+    }
+
+    #[test]
+    fn blocking_retry_is_woken_by_a_writer() {
+        std::panic::set_hook(Box::new(|_| {}));
+        let mk = || -> Body {
+            let x = TVar::new(0u32);
+            Arc::new(move |tid, _| {
+                if tid == 0 {
+                    atomically(|t| {
+                        let v = x.read(t)?;
+                        if v == 0 { retry() } else { Ok(v) }
+                    })
+                    .to_string()
+                } else {
+                    atomically(|t| x.write(t, 7));
+                    "w".to_string()
+                }
+            })
+        };
+        let out = explore_raw(&[1, 1], mk, u32::MAX, 1000);
+        assert!(out.len() == 1, "{out:?}");
+        let ((status, results), n) = out.into_iter().next().unwrap();
+        assert_eq!(status, "ok");
+        assert_eq!(results, vec![vec!["7".to_string()], vec!["w".to_string()]]);
+        assert!(n >= 4, "{n} schedules");
+    }
+
+    #[test]
+    fn blocking_retry_without_writer_is_a_deadlock() {
+        std::panic::set_hook(Box::new(|_| {}));
+        let mk = || -> Body {
+            let x = TVar::new(0u32);
+            let y = TVar::new(0u32);
+            Arc::new(move |tid, _| {
+                if tid == 0 {
+                    atomically(|t| {
+                        let v = x.read(t)?;
+                        if v == 0 { retry() } else { Ok(v) }
+                    })
+                    .to_string()
+                } else {
+                    atomically(|t| y.write(t, 7));
+                    "w".to_string()
+                }
+            })
+        };
+        let out = explore_raw(&[1, 1], mk, u32::MAX, 1000);
+        assert!(out.keys().all(|(s, _)| s == "deadlock"), "{out:?}");
+    }
+
+    #[test]
+    fn livelock_hits_the_step_budget() {
+        std::panic::set_hook(Box::new(|_| {}));
+        let mk = || -> Body {
+            let x = TVar::new(0u32);
+            Arc::new(move |_, _| {
+                // every attempt invalidates itself: a non-transactional writer inside the closure
+                atomically(|t| {
+                    let v = x.read(t)?;
+                    let x2 = x.clone();
+                    std::thread::spawn(move || atomically(|t| x2.write(t, v + 1))).join().unwrap();
+                    x.write(t, v + 100)
+                });
+                "done".to_string()
+            })
+        };
+        let out = explore_raw(&[1], mk, 0, 200);
+        assert!(out.keys().all(|(s, _)| s == "hang"), "{out:?}");
     }
 }
